@@ -40,6 +40,10 @@ X(s) == INSTANCE SoyExec WITH prog <- s.prog, ctl <- s.ctl, act <- s.act,
                               pend <- s.pend, bufs <- s.bufs, out <- s.out,
                               wr <- s.wr, status <- s.status, unbound <- s.unbound
 
+\* the full directive semantics (C16's reference), used for directives that
+\* SoyExec itself does not interpret
+Dr == INSTANCE SoyDirectives WITH DirDev <- {}
+
 NoFn == [x \in {} |-> ""]
 NoCfg == [oblig |-> <<>>, dirs |-> {}, fns |-> NoFn]
 CfgOf(s) == IF "cfg" \in DOMAIN s.prog THEN s.prog.cfg ELSE NoCfg
@@ -125,20 +129,37 @@ BindF(s, a, name, v) ==
   IF "render_mutates_data" \in Dev THEN [a EXCEPT !.tdata = (name :> v) @@ @]
   ELSE X(s)!Bind(a, name, v)
 
+\* Directives beyond SoyExec's three (truncate, changeNewlineToBr,
+\* insertWordBreaks, escapeUri, ...) are interpreted by SoyDirectives when the
+\* program carries a configuration (bundle mode; without one StepF is exactly
+\* SoyExec, which makes no claim there): the node's own directives must all be
+\* builtins with a determinate result, the installed custom ones follow them.
 PrintF(s, sh, h, rest) ==
   LET s1 == NoteUnbound(s, h.e)
       cfg == CfgOf(s)
-      v == Eval(h.e, X(s)!Env)
+      env == X(s)!Env
+      v == Eval(h.e, env)
       shared == "id" \in DOMAIN h /\ h.id \in DOMAIN sh.dirs
       base == IF shared THEN sh.dirs[h.id] ELSE h.dirs
       dirs == base \o ObligDirs(cfg)
       sh1 == IF "obligatory_append" \in Dev /\ shared THEN [sh EXCEPT !.dirs[h.id] = dirs] ELSE sh
       known == X(s)!KnownDirs \cup cfg.dirs
-      cancel == \E i \in 1..Len(dirs) : X(s)!Cancels(dirs[i].name) IN
+      simple == \A i \in 1..Len(dirs) : dirs[i].name \in known
+      cancel == \E i \in 1..Len(dirs) : X(s)!Cancels(dirs[i].name)
+      chain == [i \in 1..Len(base) |-> [name |-> base[i].name, args |-> EvalSeq(base[i].args, env, 1)]]
+      extended == /\ "cfg" \in DOMAIN s.prog
+                  /\ \A i \in 1..Len(base) : base[i].name \in Dr!BuiltinNames
+                  /\ \A i \in 1..Len(cfg.oblig) : cfg.oblig[i] \in cfg.dirs
+                  /\ \A i \in 1..Len(chain) : \A j \in 1..Len(chain[i].args) : ~IsBad(chain[i].args[j])
+                  /\ Dr!Determinate(chain, v) IN
   IF IsBad(v) THEN [s |-> BadF(s1, v), sh |-> sh]
   ELSE IF v.t = "undef" THEN [s |-> FailF(s1), sh |-> sh]
   \* from here on the pinned code has already appended to the node
-  ELSE IF \E i \in 1..Len(dirs) : dirs[i].name \notin known THEN [s |-> NoClaimF(s1), sh |-> sh1]
+  ELSE IF ~simple THEN
+       IF ~Printable(v) \/ ~extended THEN [s |-> NoClaimF(s1), sh |-> sh1]
+       ELSE LET t0 == ApplyDirsC(ToText(Dr!ApplyChain(chain, v)), ObligDirs(cfg), 1)
+                t == IF TopF(s).esc /\ ~Dr!Cancels(chain) THEN X(s)!EscapeHtml(t0) ELSE t0 IN
+            [s |-> EmitF(s1, t, rest), sh |-> sh1]
   ELSE IF ~Printable(v) THEN [s |-> NoClaimF(s1), sh |-> sh1]
   ELSE LET t0 == ApplyDirsC(ToText(v), dirs, 1)
            t == IF TopF(s).esc /\ ~cancel THEN X(s)!EscapeHtml(t0) ELSE t0 IN
